@@ -77,8 +77,38 @@ pub fn c12_configs(tier: Tier) -> Vec<LCfg> {
 pub fn run_c12(tier: Tier) -> i32 {
     let mut report = Report::new("C12", tier, "model_checking");
     if !crate::vclock::self_test() { report.machinery_errors.push("virtual clock interposition is not effective".into()); return report.finish(); }
+    explore_lifecycle_into(&mut report, "C12", "c12", c12_configs(tier), tier, "");
+    report.finish()
+}
+
+/// C15 on the client layer: user calls (start / stop / stop with DISCONNECT) around submitted publishes under every offline
+/// policy; an operation the policy keeps may fail only because the client was closed.
+pub fn c15_configs(tier: Tier) -> Vec<LCfg> {
+    let thorough = tier == Tier::Thorough;
+    let mut out = Vec::new();
+    for mode in [LoopMode::Tokio, LoopMode::Threaded] {
+        for policy in [OfflineQueuePolicy::PreserveAll, OfflineQueuePolicy::PreserveNothing, OfflineQueuePolicy::PreserveAcknowledged, OfflineQueuePolicy::PreserveQos1PlusPublishes] {
+            if !thorough && mode == LoopMode::Threaded && policy != OfflineQueuePolicy::PreserveAll { continue; }
+            let mut c = LCfg::base(&format!("client-{:?}-{:?}", mode, policy), mode);
+            c.offline = policy;
+            c.requests = vec![Req::Publish, Req::Start, Req::Stop, Req::StopDisconnect];
+            c.max_requests = if thorough { 5 } else { 4 };
+            c.max_attempts = if thorough { 3 } else { 2 };
+            c.budget = if thorough { 3 } else { 2 };
+            c.max_depth = if thorough { 40 } else { 30 };
+            out.push(c);
+        }
+    }
+    out
+}
+
+pub fn run_c15_part(report: &mut Report, tier: Tier) {
+    if !crate::vclock::self_test() { report.machinery_errors.push("virtual clock interposition is not effective".into()); return; }
+    explore_lifecycle_into(report, "C15", "c15", c15_configs(tier), tier, "client_");
+}
+
+pub fn explore_lifecycle_into(report: &mut Report, property: &str, config_set: &str, configs: Vec<LCfg>, tier: Tier, prefix: &str) {
     let known = KnownFindings::load();
-    let configs = c12_configs(tier);
     let pool = rayon::ThreadPoolBuilder::new().num_threads(threads()).build().unwrap();
     let small_pool = rayon::ThreadPoolBuilder::new().num_threads((threads() / 3).max(2)).build().unwrap();
     let total_wall = if tier == Tier::Quick { 45.0 } else { 1200.0 };
@@ -101,33 +131,32 @@ pub fn run_c12(tier: Tier) -> i32 {
         for found in &result.found {
             let v = &found.violation;
             if v.property == "MACHINERY" { report.machinery_errors.push(format!("{}: {}", v.signature, v.detail)); continue; }
-            if v.property != "C12" { report.add_count("violations_of_other_properties_seen", 1); }
+            if v.property != property { report.add_count("violations_of_other_properties_seen", 1); }
             if let Some(k) = known.matches(v) { report.known_hit.insert((v.property.clone(), format!("{} [{}]", k.what_fails, k.signature))); continue; }
             if report.violations.iter().any(|(x, _)| x.signature == v.signature) { continue; }
             let signature = (v.property.clone(), v.signature.clone());
             let mut v2 = v.clone();
             if let Err(problem) = confirm::<LWorld>(&cfg, &found.history, &signature, found.in_closure) { v2.detail = format!("{} [replay note: {}]", v2.detail, problem); }
-            let body = json!({"kind": "lifecycle-history", "tier": tier.name(), "config_index": index, "config": cfg.describe(), "history": found.history.iter().map(|e| e.to_text()).collect::<Vec<_>>(), "then_fair_closure": found.in_closure, "property": v.property, "signature": v.signature, "detail": v.detail});
+            let body = json!({"kind": "lifecycle-history", "config_set": config_set, "tier": tier.name(), "config_index": index, "config": cfg.describe(), "history": found.history.iter().map(|e| e.to_text()).collect::<Vec<_>>(), "then_fair_closure": found.in_closure, "property": v.property, "signature": v.signature, "detail": v.detail});
             let path = write_replay(&v.property, &v.signature, &body);
             report.violations.push((v2, path));
         }
     }
-    report.set("engine", json!("E2 explicit-state BFS: transitions call the real MqttClientImpl (verif::ClientImpl) on a per-thread virtual clock; the environment is a mirror of the tokio / threaded loop shells"));
-    report.set("rule", json!("state = canonical key of (real MqttClientImpl state, real engine snapshot, loop-shell model: loop state, deadlines, unwritten bytes; event-stream monitor); transition = one thing the event loop can observe next (user call, connect result, read result, write progress, service / reconnect timer), applied to a fresh real client by re-executing the whole history on a virtual clock; from every state the fair closure (cooperating environment) checks the bounded-response clauses; distinct_event_streams = distinct emitted lifecycle event sequences at terminal states"));
-    report.set("configs", json!(configs.len()));
-    report.add_count("states", states); report.add_count("transitions", transitions); report.add_count("traces_validated_against_impl", executions); report.add_count("fair_closures_run", closures);
-    report.set("max_depth", json!(max_depth)); report.set("distinct_event_streams", json!(outcomes)); report.set("per_config", json!(rows)); report.set("samples", json!(samples));
-    report.set("exhaustive", json!(capped.is_empty())); report.set("capped", json!(capped)); report.set("determinism_rerun_equal", json!(determinism));
+    report.set(&format!("{}engine", prefix), json!("E2 explicit-state BFS: transitions call the real MqttClientImpl (verif::ClientImpl) on a per-thread virtual clock; the environment is a mirror of the tokio / threaded loop shells"));
+    report.set(&format!("{}rule", prefix), json!("state = canonical key of (real MqttClientImpl state, real engine snapshot, loop-shell model: loop state, deadlines, unwritten bytes; event-stream monitor); transition = one thing the event loop can observe next (user call, connect result, read result, write progress, service / reconnect timer), applied to a fresh real client by re-executing the whole history on a virtual clock; from every state the fair closure (cooperating environment) checks the bounded-response clauses; distinct_event_streams = distinct emitted lifecycle event sequences at terminal states"));
+    report.set(&format!("{}configs", prefix), json!(configs.len()));
+    report.add_count(&format!("{}states", prefix), states); report.add_count(&format!("{}transitions", prefix), transitions); report.add_count(&format!("{}traces_validated_against_impl", prefix), executions); report.add_count(&format!("{}fair_closures_run", prefix), closures);
+    report.set(&format!("{}max_depth", prefix), json!(max_depth)); report.set(&format!("{}distinct_event_streams", prefix), json!(outcomes)); report.set(&format!("{}per_config", prefix), json!(rows)); report.set(&format!("{}samples", prefix), json!(samples));
+    if prefix.is_empty() { report.set("exhaustive", json!(capped.is_empty())); } report.set(&format!("{}capped", prefix), json!(capped)); report.set(&format!("{}determinism_rerun_equal", prefix), json!(determinism));
     report.assume("the loop mirror (which calls the loop makes after each observed event, tokio: one source per iteration, threaded: operation->read->service->write per iteration) is a hand-written model of client_event_loop/process_* in both drivers; it is bound to the real drivers by the E3 replays (C13)");
     report.assume("every explored history is an execution of the real MqttClientImpl and ProtocolState");
     report.assume("Instant::now() inside the client is virtualised by link-time interposition of clock_gettime (self-tested at start)");
-    report.finish()
 }
 
 pub fn replay_file(value: &Value) -> i32 {
     let tier = if value["tier"].as_str() == Some("thorough") { Tier::Thorough } else { Tier::Quick };
     let index = value["config_index"].as_u64().unwrap_or(0) as usize;
-    let configs = c12_configs(tier);
+    let configs = if value["config_set"].as_str() == Some("c15") { c15_configs(tier) } else { c12_configs(tier) };
     let Some(cfg) = configs.get(index) else { eprintln!("no such config"); return 2; };
     let cfg = Arc::new(cfg.clone());
     let history: Vec<LEv> = value["history"].as_array().map(|a| a.iter().filter_map(|e| LEv::from_text(e.as_str().unwrap_or(""))).collect()).unwrap_or_default();
